@@ -269,13 +269,18 @@ def tx_case(tier):
     @st.composite
     def build(draw):
         n_acc = draw(st.sampled_from([1, 1, 2, 2, 3]))
-        accounts = [{"seed": draw(st.binary(min_size=16, max_size=32)).hex(),
-                     "single": draw(st.integers(0, 5)) == 0} for _ in range(n_acc)]
+        # one wallet never holds the same key material in two accounts
+        seeds = draw(st.lists(st.binary(min_size=16, max_size=32), min_size=n_acc, max_size=n_acc, unique=True))
+        accounts = [{"seed": sd.hex(), "single": draw(st.integers(0, 5)) == 0} for sd in seeds]
         n_in = draw(st.one_of(st.integers(1, 8), st.integers(1, max_inputs), st.sampled_from([1, 2, max_inputs])))
         inputs = draw(st.lists(spent_strategy(n_acc), min_size=n_in, max_size=n_in))
         outputs = draw(st.lists(new_output_strategy(), min_size=1, max_size=4))
         special = draw(st.integers(0, 5)) == 0
         return {"accounts": accounts, "inputs": inputs, "outputs": outputs,
+                # what the daemon's publish / update flows do between create() (which has read sizes) and sign():
+                # an output's script is regenerated in place (Output.sign by a channel, updated claim payload)
+                "post_read_edit": draw(st.sampled_from([None, None, {"out": draw(st.integers(0, 3)),
+                                                                     "extra": draw(st.binary(min_size=1, max_size=40)).hex()}])),
                 "version": draw(st.sampled_from([1, 2, 0xFFFFFFFF])) if special else 1,
                 "locktime": draw(st.sampled_from([1, 499999999, 500000000, 0xFFFFFFFF])) if special else 0}
     return build()
@@ -345,6 +350,17 @@ async def _sign_flow(case):
         outputs = [_make_output(lb, o, bytes.fromhex(o["h160"])) for o in case["outputs"]]
         tx = Transaction(version=case["version"], locktime=case["locktime"]).add_inputs(inputs).add_outputs(outputs)
         _ = tx.size, tx.id         # Transaction.create() looks at sizes / ids before signing: caches are warm
+        edit = case.get("post_read_edit")
+        if edit:
+            txo = outputs[edit["out"] % len(outputs)]
+            values = txo.script.values
+            if "claim" in values and isinstance(values["claim"], bytes):
+                values["claim"] = values["claim"] + bytes.fromhex(edit["extra"])
+            elif "pubkey_hash" in values:
+                values["pubkey_hash"] = hashlib.sha256(bytes.fromhex(edit["extra"])).digest()[:20]
+            elif "script_hash" in values:
+                values["script_hash"] = hashlib.sha256(bytes.fromhex(edit["extra"])).digest()[:20]
+            txo.script.generate()
         await tx.sign(accounts)
         return tx.raw, funding_raws
     finally:
